@@ -33,6 +33,9 @@
    - [C09_growth_by_copy_strong] (Transfer.v): the relocation into a new block used for element types whose move may throw
      (RelocateByCopy: copy all, then destroy the sources; a throwing copy destroys the copies): strong - the old block is exactly
      as before and the new block holds nothing;
+   - [C09_single_pass_range_insert_strong] (AliasThrow.v): insert(pos, first, last) with single-pass input iterators within
+     capacity (elements appended one by one with the roll-back of append_range, then rotated into place): a throwing copy
+     leaves every slot as before, completion gives prefix, range, suffix;
    - sets [C09_flatset_*]: FlatSet::operator=(const FlatSet&), insert(first, last) and restoreInvariants() are REGENERATED
      from flatset.hpp (Gen/HintGen.v: the try block becomes a match on [thr : option (list Z)], [Some l'] = "an operation
      of the vector threw and left the vector as l'", for ANY l' - the vector only promises the basic guarantee).  Whatever
@@ -44,7 +47,7 @@
    the element ledger, the allocator ledger, contents (strong operations: unchanged) and usability are checked. *)
 From Coq Require Import ZArith List Bool Sorted.
 From Amc Require Import Throw.
-From Amc Require EmplaceGrow ThrowMove SlotsTR Transfer.
+From Amc Require EmplaceGrow ThrowMove SlotsTR Transfer AliasThrow.
 From Amc Require Hint HintTV.
 From Amc.Gen Require HintGen SsetGen.
 From Amc Require SsetTV.
@@ -296,3 +299,12 @@ Theorem C09_growth_by_copy_strong :
   | Threw m' => forall j, m' j = m j
   | Err _ => False end.
 Proof. exact Transfer.relocate_by_copy_strong. Qed.
+
+(* ---- single-pass input range inserted within capacity ---- *)
+Theorem C09_single_pass_range_insert_strong :
+  forall m th size cap pos l, Inv m size cap -> pos <= size -> size + length l <= cap ->
+  match AliasThrow.insert_range_in m th size pos l with
+  | Done m' _ => Inv m' (size + length l) cap /\ AliasThrow.vals m' 0 (size + length l) = SlotsTR.spec_insert_range (AliasThrow.vals m 0 size) pos l
+  | Threw m' => forall j, m' j = m j
+  | Err _ => False end.
+Proof. exact AliasThrow.insert_range_in_spec. Qed.
